@@ -28,6 +28,10 @@ pub struct FaultSpec {
     /// number of alternatives offered for each session tick in the window (0 = none,
     /// 1 = stall, 2 = stall | poll-only)
     pub tick_alts: u8,
+    /// link groups: at the start of every round of the window one choice per group decides
+    /// whether all links of the group are up (0) or down (1) for that round
+    #[serde(default)]
+    pub link_rounds: Vec<Vec<(Addr, Addr)>>,
 }
 
 #[derive(Clone, Debug, Serialize, Deserialize)]
